@@ -173,10 +173,15 @@ def coq_project():
             raise RuntimeError("coq_makefile failed: " + out)
 
 
-def coq_make(targets, timeout=2400, jobs=16):
+def coq_make(targets, timeout=2400, jobs=16, lock_build=True):
     """full .vo build of the given targets (closure). returns (ok, output)"""
-    with BuildLock("coq"):
-        coq_project()
+    if lock_build:
+        with BuildLock("coq"):
+            coq_project()
+            rc, out, dt = run(["make", "-j%d" % jobs, "-k"] + targets, cwd=COQ, timeout=timeout)
+    else:
+        with BuildLock("coq"):
+            coq_project()
         rc, out, dt = run(["make", "-j%d" % jobs, "-k"] + targets, cwd=COQ, timeout=timeout)
     return rc == 0, out, dt
 
